@@ -37,6 +37,7 @@ HERE = os.path.dirname(os.path.abspath(__file__))
 sys.path.insert(0, HERE)
 
 import env  # noqa: E402
+import covtrace  # noqa: E402
 import known  # noqa: E402
 import leangate  # noqa: E402
 from driver import Driver, DriverError  # noqa: E402
@@ -99,6 +100,9 @@ def run_cases(prop, cases, nworkers=1):
     chunks = [cases[i::nworkers] for i in range(nworkers)]
     with ctx.Pool(nworkers) as pool:
         parts = pool.map(_worker, [(prop.__module__, ch) for ch in chunks])
+    for _, hits in parts:
+        covtrace.merge(hits)
+    parts = [p for p, _ in parts]
     out = []
     for ch, part in zip(chunks, parts):
         for c, rd in zip(ch, part):
@@ -113,7 +117,8 @@ def _worker(arg):
     prop = importlib.import_module(modname).PROP
     drv = Driver()
     try:
-        return [safe_run(prop, c, drv).__dict__ for c in cases]
+        res = [safe_run(prop, c, drv).__dict__ for c in cases]
+        return res, covtrace.snapshot()
     finally:
         drv.close()
 
@@ -244,6 +249,8 @@ def main(prop, argv=None):
     args = ap.parse_args(argv)
     t0 = time.time()
     pid = prop.id
+    if os.environ.get('VERIF_COV', '1') != '0':
+        covtrace.start(os.path.join(env.REPO, 'dit'))
     env.import_dit()
 
     if args.replay:
@@ -342,6 +349,7 @@ def main(prop, argv=None):
             'known_findings_hit': list(known_hits.keys()),
             'exhaustive': bool(getattr(prop, 'exhaustive', {}).get(args.tier, False)),
             'modelled_not_verified': getattr(prop, 'modelled', ''),
+            'anchor_line_coverage': covtrace.report(pid, os.path.join(VERIF, 'properties.jsonl'), env.REPO),
         },
         'assumptions': TRUSTED_BASE + list(getattr(prop, 'trusted_extra', [])),
         'wall_s': round(time.time() - t0, 2),
